@@ -15,15 +15,14 @@ bb8048e, `_setup_refs`, `_setup_params`, `_sync_refs` under `edit_constant`/`_sy
 expression: an opaque function `c.F` of its dependencies — all theorems hold for every `F`),
 `cont` (a container of these; resolved recursively only on a `nested_refs` parameter).
 
-Two parts of the statement are FALSE of the code as it is and are kept as `…_full` definitions with
-refutations (`…_full_refuted`, replayed on the real code by harness/props/c08.py, KNOWN_FINDINGS.txt):
+One part of the statement is FALSE of the code as it is and is kept as a `…_full` definition with
+a refutation (`…_full_refuted`, replayed on the real code by harness/props/c08.py, KNOWN_FINDINGS.txt):
   * a source update whose resolved value is invalid for ONE linked parameter raises out of
     `_sync_refs` and leaves every later link of that object (and of the objects synced after it)
     stale although the value is valid for them  → `linked_value_tracks_reference_partial` assumes
-    that no source update raised;
-  * a plain-value override deletes `refs[name]` but leaves the object's `_sync_refs` watcher on the
-    old sources (`_update_ref` is not called) → `old_sources_keep_no_watcher_partial` is about
-    relinks; after an override the leftover watcher is inert (`override_ends_link_for_good`).
+    that no source update raised.
+"keep no watcher on its behalf" holds in full since fix c44323d (a plain-value override goes through
+`_update_ref(name, Undefined)`): `old_sources_keep_no_watcher`.
 -/
 import ParamVerif.Refs.Lemmas
 
@@ -57,7 +56,12 @@ theorem reachable_inv {c : Cfg} {w : World} (h : Reachable c true w) : Inv c w :
   induction h with
   | init src =>
     exact ⟨fun t tg _ _ _ _ ht => by simp at ht, fun t tg _ _ _ _ ht => by simp at ht, fun t tg ht => by simp at ht,
-      fun t tg _ _ _ ht => by simp at ht, fun t tg _ _ ht => by simp at ht⟩
+      fun t tg _ _ _ ht => by simp at ht, fun t tg _ _ ht => by simp at ht,
+      fun t s ws names i hws hm _ => by
+        simp only [List.getElem?_map] at hws
+        cases h : src[s]? with
+        | none => simp [h] at hws
+        | some row => simp [h] at hws; subst hws; cases hm⟩
   | construct dflt kws _ hlen hc ih => exact construct_inv ih hlen hc
   | step op _ hs ih => exact step_inv ih rfl (fun s i v e => hs rfl s i v e)
 
@@ -209,92 +213,20 @@ theorem override_ends_link_for_good (c : Cfg) (t p : Nat) : ∀ (ups : List (Nat
     rw [h4]
     exact h2 p (fun ⟨r, hm, _⟩ => dictGet_none_iff.1 hn r hm)
 
-/-- **C08, relink.**  After an accepted assignment of a *reference* to `t.p`, the `_sync_refs`
-watchers of t sit exactly on the dependencies of its current links: the sources of the replaced
-link keep no watcher on its behalf (unless another link of t still needs them). -/
-theorem old_sources_keep_no_watcher_partial (c : Cfg) (t p : Nat) (rhs : Rhs) (d : PDecl) (w w' : World)
-    (log : List Entry) (hd : c.decl t p = some d) (href : depsOf rhs d.nestedRefs ≠ [])
-    (h : step c (.set t p rhs) w = (.ok, w', log)) : Exact c w' t := by
-  unfold step at h
-  split at h
-  · simp at h
-  · simp only at h
-    split at h
-    · simp at h
-    · cases hs : setInst c t p rhs w with
-      | mk r q =>
-        obtain ⟨w1, evs⟩ := q
-        rw [hs] at h; simp at h
-        obtain ⟨hr, hw, _⟩ := h; subst hr hw
-        unfold setInst at hs
-        split at hs
-        · rename_i tg d' htg hd'
-          rw [hd] at hd'; cases hd'
-          split at hs
-          · rename_i old v rl hold hres
-            obtain ⟨v0, vals', hv, _, _, hvals, hw⟩ := setCore_ok_form htg hs
-            obtain ⟨refs', watch', hform, hrl⟩ := applyRelink_form (rl := rl) (vals' := vals') htg hd
-            rw [hform] at hw; subst hw
-            have hget := fun t' x => tgts_set_get w.tgts t t' x tg htg
-            have hlink : rl = .link rhs := by
-              unfold resolveForSet at hres
-              split at hres
-              · simp at hres
-              · split at hres
-                · rename_i hna
-                  -- without allow_refs a supported right-hand side is a literal: it has no dependencies
-                  split at hres
-                  · rename_i hlit
-                    exfalso; apply href
-                    cases rhs with
-                    | atom a => cases a <;> simp_all [Rhs.isLit, Atom.isLit, depsOf, Atom.deps]
-                    | cont items =>
-                      simp only [depsOf]
-                      split
-                      · simp only [Rhs.isLit, List.all_eq_true] at hlit
-                        apply List.flatMap_eq_nil_iff.2
-                        intro a ha
-                        have := hlit a ha
-                        cases a <;> simp_all [Atom.isLit, Atom.deps]
-                      · rfl
-                  · simp at hres
-                · split at hres
-                  · rename_i he; simp at he; exact absurd he href
-                  · split at hres
-                    · simp at hres; exact hres.2.symm
-                    · simp at hres
-            subst hlink
-            simp only at hrl
-            obtain ⟨hrefs, ds, hds, hwatch⟩ := hrl
-            intro s ws names i hws hmem hin
-            simp only at hws
-            rw [hwatch, setupRefs_get, unwatchAll_get] at hws
-            cases hws0 : w.watch[s]? with
-            | none => simp [hws0] at hws
-            | some ws0 =>
-              simp only [hws0, Option.map_some, Option.some.injEq] at hws
-              refine ⟨{ tg with vals := vals', refs := refs' }, ?_⟩
-              have hmem' : (t, names) = (t, (List.range c.nsp).filter (fun i => (allDeps ds refs').contains (s, i))) := by
-                split at hws
-                · subst hws
-                  simp [List.mem_filter] at hmem
-                · subst hws
-                  simp only [List.mem_append, List.mem_filter, List.mem_singleton] at hmem
-                  rcases hmem with ⟨_, hne⟩ | e
-                  · simp at hne
-                  · exact e
-              have hnames := (Prod.mk.inj hmem').2
-              rw [hnames] at hin
-              simp only [List.mem_filter, List.contains_iff_mem] at hin
-              obtain ⟨kv, hkv, hdep⟩ := (allDeps_mem hds).1 hin.2
-              exact ⟨kv.1, kv.2, by simp only [hget]; simp, hkv, hdep⟩
-          · simp at hs
-        · simp at hs
+/-- **C08, no watcher left behind.**  In every reachable world the `_sync_refs` watchers of every
+object sit *exactly* on the dependencies of its live links: after a relink and after a plain-value
+override alike (both go through `_update_ref`, which unwatches everything and re-installs the
+watchers of the links that remain), the sources of the replaced link keep no watcher on its behalf
+— unless another live link of the same object still depends on them. -/
+theorem old_sources_keep_no_watcher (c : Cfg) (w : World) (h : Reachable c true w) (t : Nat) : Exact c w t :=
+  fun s ws names i hws hm hin => (reachable_inv h).exact t s ws names i hws hm hin
 
-/-- the statement for every accepted assignment, plain overrides included -/
-def old_sources_keep_no_watcher_full : Prop :=
-  ∀ (c : Cfg) (t p : Nat) (rhs : Rhs) (w w' : World) (log : List Entry),
-    Reachable c true w → Exact c w t → step c (.set t p rhs) w = (.ok, w', log) → Exact c w' t
+/-- … in single-step form: whatever is assigned to `t.p` (plain value or reference) and however the
+assignment ends, afterwards t's watchers are exact. -/
+theorem old_sources_keep_no_watcher_step (c : Cfg) (t p : Nat) (rhs : Rhs) (w : World) (hi : Inv c w) :
+    Exact c (step c (.set t p rhs) w).2.1 t :=
+  fun s ws names i hws hm hin =>
+    (step_inv hi (rfl : step c (.set t p rhs) w = _) (fun _ _ _ e => by cases e)).exact t s ws names i hws hm hin
 
 /-- **C08, the other links.**  Whatever is assigned to `t.p` and however the assignment ends,
 every other parameter of t keeps its link and its value, every other object is untouched and no
@@ -384,32 +316,11 @@ theorem linked_value_tracks_reference_full_refuted : ¬ linked_value_tracks_refe
     1 (.atom (.par 0 0)) d1 (.int 50) (by decide) (by decide) (by decide) (by decide) (by decide)
   revert this; decide
 
-/-- `t.p0 = 5` (plain) on `T0(p0=S0.param.v0)`: the link is gone, the watcher on S0.v0 is not -/
+/-- `t.p0 = 5` (plain) on `T0(p0=S0.param.v0)`: the link is gone and so is the watcher on S0.v0 -/
 def v1 : World := (construct c dflt [(0, .atom (.par 0 0))] init).2
 def v2 : World := (step c (.set 0 0 (.atom (.lit 5))) v1).2.1
 
-example : (step c (.set 0 0 (.atom (.lit 5))) v1).1 = .ok ∧ v2.tgts.map (·.refs) = [[]] ∧ v2.watch = [[(0, [0])], []] := by decide
-
-theorem old_sources_keep_no_watcher_full_refuted : ¬ old_sources_keep_no_watcher_full := by
-  intro hfull
-  have hr : Reachable c true v1 := .construct dflt [(0, .atom (.par 0 0))] (.init [[1, 2], [3, 4]]) (hlen0 _ rfl) (by decide)
-  have hex : Exact c v1 0 := by
-    intro s ws names i hws hmem hin
-    have hw : v1.watch = [[(0, [0])], []] := by decide
-    rw [hw] at hws
-    match s, hws with
-    | 0, hws =>
-      simp at hws; subst hws
-      simp at hmem; subst hmem
-      simp at hin; subst hin
-      exact ⟨⟨[some (.int 1), none, none], dflt, [(0, .atom (.par 0 0))]⟩, 0, .atom (.par 0 0), by decide, by decide, by decide⟩
-    | 1, hws => simp at hws; subst hws; cases hmem
-    | s + 2, hws => simp at hws
-  have hstep : step c (.set 0 0 (.atom (.lit 5))) v1 = (.ok, v2, (step c (.set 0 0 (.atom (.lit 5))) v1).2.2) := by decide
-  have := hfull c 0 0 _ v1 v2 _ hr hex hstep 0 [(0, [0])] [0] 0 (by decide) (by decide) (by decide)
-  obtain ⟨tg, q, r, h1, h2, _⟩ := this
-  have htg : v2.tgts[0]? = some ⟨[some (.int 5), none, none], dflt, []⟩ := by decide
-  rw [htg] at h1; cases h1; cases h2
+example : (step c (.set 0 0 (.atom (.lit 5))) v1).1 = .ok ∧ v1.watch = [[(0, [0])], []] ∧ v2.tgts.map (·.refs) = [[]] ∧ v2.watch = [[], []] := by decide
 
 /-- relinking instead (`t.p0 = S1.param.v0`) moves the watcher -/
 example : (step c (.set 0 0 (.atom (.par 1 0))) v1).2.1.watch = [[], [(0, [0])]] := by decide
